@@ -92,6 +92,15 @@ class Borrowed(object):
             return self._check.ob(self._rule_as, key, ok, where, why, self._witness or witness, detail)
         return None
 
+    def run_lender(self, module, prog):
+        """run the lender's rules; an anchor the lender cannot find is the lender's analysis error, not the borrower's: the borrowed
+        clause is then simply not part of the borrower's verdict (noted in its evidence)"""
+        from .loader import AnalysisError
+        try:
+            module.run(prog, self)
+        except AnalysisError as e:
+            self._check.note('clause borrowed as %s could not be decided by its lender: %s' % (self._rule_as, e))
+
     def saw(self, funcinfo):
         pass
 
